@@ -41,13 +41,23 @@ class Stats:
     """mergeable statistics of one shard"""
 
     def __init__(self):
-        self.evaluations = 0
+        self._evaluations = 0
         self.nontrivial = set()
         self.classes = collections.Counter()
         self.samples = []
         self.failures = []
         self.notes = collections.Counter()
         self.inconclusive = 0
+
+    @property
+    def evaluations(self):
+        return self._evaluations
+
+    @evaluations.setter
+    def evaluations(self, v):
+        # every counted evaluation is progress: tells the stall watchdog of run_shards that this shard is alive
+        self._evaluations = v
+        beat()
 
     def sample(self, s, cap=6):
         if len(self.samples) < cap:
@@ -102,6 +112,24 @@ def journal(obj):
             pass
 
 
+_LAST_BEAT = [0.0]
+
+
+def beat():
+    """progress heartbeat of a shard (rate limited): refreshes the modification time of its journal file"""
+    if _JOURNAL:
+        now = time.monotonic()
+        if now - _LAST_BEAT[0] > 2.0:
+            _LAST_BEAT[0] = now
+            try:
+                if os.path.exists(_JOURNAL):
+                    os.utime(_JOURNAL, None)
+                else:
+                    open(_JOURNAL, "a").close()
+            except OSError:
+                pass
+
+
 def _shard_entry(fn, arg, conn, jpath=None):
     global _JOURNAL
     _JOURNAL = jpath
@@ -125,7 +153,7 @@ class HarnessError(Exception):
     pass
 
 
-def run_shards(fn, args_list, procs=None, stall_s=600, on_suspect=None):
+def run_shards(fn, args_list, procs=None, stall_s=1200, on_suspect=None):
     """run fn(*args) for each args in separate forked processes (at most procs at once);
     returns list of results in order.  A shard that crashes is a harness error, unless it left
     a journal entry and ``on_suspect`` is given: then the journalled case is handed to
